@@ -84,6 +84,9 @@ func (f *Frame) evalModItems(env *Env, exprs []ast.Expr) (items []modItem) {
 			case "fields":
 				v := env.eval(x.Args[0])
 				items = append(items, f.allFieldItems(env, v, x)...)
+			case "mapcontents":
+				v := env.eval(x.Args[0])
+				items = append(items, modItem{kind: "field", heaps: []*heapInfo{e.heap("G!mapver", "Int", false)}, ref: v.C[0]})
 			case "regionid":
 				v := env.eval(x.Args[0])
 				items = append(items, modItem{kind: "region", heaps: e.memHeaps(types.Typ[types.Uint8]), ref: v.C[0]})
@@ -419,6 +422,29 @@ func (f *Frame) dispatchCall(key string, c *ssa.CallCommon, fnv Val, args []Val,
 	case "(*sync.Mutex).Unlock":
 		f.release(args[0].C[0], reach, st, point)
 		return Val{T: resT}, reach
+	case "(*sync.Once).Do":
+		// the function runs now or has run before: execute the closure under
+		// an unconstrained condition (its effects, if it ran earlier, are
+		// part of the arbitrary pre-state)
+		if len(args) == 2 && args[1].Clos != nil && args[1].Clos.Fn.Pkg == e.pkg && f.depthOK(args[1].Clos.Fn) {
+			// ghost Once.g_done: the function runs iff no Do on this Once has
+			// completed; an Once allocated in this activation starts not done.
+			gf := &GhostField{Struct: "sync.Once", Name: "g_done", Type: "bool"}
+			for _, g := range e.db.Ghosts {
+				if g.Struct == "sync.Once" && g.Name == "g_done" {
+					gf = g
+				}
+			}
+			h := e.ghostHeap("sync.Once", gf)
+			run := e.fresh("once.run", "Bool")
+			e.assume(reach, eq(run, not(sx("select", e.heapTerm(st, h), args[0].C[0]))))
+			bst := st.clone()
+			_, r1 := f.inline(args[1].Clos.Fn, e.db.Funcs[fnKey(args[1].Clos.Fn)], nil, args[1].Clos.Bindings, and(reach, run), bst)
+			m := f.mergeStates([]edge{{nil, r1, bst}, {nil, and(reach, not(run)), st.clone()}})
+			*st = *m
+			e.setHeap(st, h, sx("store", e.heapTerm(st, h), args[0].C[0], "true"))
+			return Val{T: resT}, or(r1, and(reach, not(run)))
+		}
 	}
 	fc := e.db.Funcs[key]
 	var callee *ssa.Function
@@ -432,6 +458,26 @@ func (f *Frame) dispatchCall(key string, c *ssa.CallCommon, fnv Val, args []Val,
 	}
 	var res Val
 	nreach := reach
+	if callee == nil && !c.IsInvoke() {
+		if phi, ok := c.Value.(*ssa.Phi); ok {
+			var known []*ssa.Function
+			for _, ed := range phi.Edges {
+				v := ed
+				if ct, ok := v.(*ssa.ChangeType); ok {
+					v = ct.X
+				}
+				if fn, ok := v.(*ssa.Function); ok && fn.Pkg == e.pkg {
+					known = append(known, fn)
+				}
+			}
+			if len(known) > 0 {
+				res, nreach = f.dispatchDynamic(known, fc, key, sig, fnv, args, reach, st, point)
+				res.T = resT
+				f.pointClausesAfter(point, nreach, st, args, &res)
+				return res, nreach
+			}
+		}
+	}
 	switch {
 	case fc != nil && !fc.Inline && len(fc.Dispatch) > 0 && c.IsInvoke():
 		res = f.dispatchIface(fc, key, sig, args, reach, st, point)
@@ -452,15 +498,34 @@ func (f *Frame) dispatchCall(key string, c *ssa.CallCommon, fnv Val, args []Val,
 		e.assume("true", inv)
 	}
 	res.T = resT
+	f.pointClausesAfter(point, nreach, st, args, &res)
+	return res, nreach
+}
+
+func (f *Frame) pointClausesAfter(point, nreach string, st *State, args []Val, resp *Val) {
+	e := f.e
+	res := *resp
 	if f.fc != nil {
 		for name, pt := range f.fc.Binds {
-			if pt == point {
+			if pt != point {
+				continue
+			}
+			names := strings.Split(name, ",")
+			if tt, ok := res.T.(*types.Tuple); ok && len(names) > 1 {
+				n := 0
+				for i := 0; i < tt.Len() && i < len(names); i++ {
+					k := len(e.layout(tt.At(i).Type()))
+					if names[i] != "_" {
+						f.lets[names[i]] = Val{T: tt.At(i).Type(), C: res.C[n : n+k]}
+					}
+					n += k
+				}
+			} else {
 				f.lets[name] = res
 			}
 		}
 	}
 	f.pointClauses("after", point, nreach, st, args, &res)
-	return res, nreach
 }
 
 func (f *Frame) depthOK(fn *ssa.Function) bool {
@@ -546,7 +611,29 @@ func (f *Frame) applyContract(fc *FuncContract, key string, callee *ssa.Function
 	res := Val{T: rt}
 	n := 0
 	for i := 0; i < rt.Len(); i++ {
-		v, inv := e.freshVal("ret."+shortName(key), rt.At(i).Type(), st)
+		var v Val
+		var inv string
+		if fc.Functional {
+			// heap-independent pure function: same arguments, same result
+			var argc, sorts []string
+			for _, a := range args {
+				argc = append(argc, a.C...)
+				sorts = append(sorts, e.layout(a.T)...)
+			}
+			v = Val{T: rt.At(i).Type()}
+			for ci, so := range e.layout(rt.At(i).Type()) {
+				fn := fmt.Sprintf("ext.%s.%d.%d", sanitize(key), i, ci)
+				e.declFun(fn, "("+strings.Join(sorts, " ")+") "+so)
+				if len(argc) == 0 {
+					v.C = append(v.C, fn)
+				} else {
+					v.C = append(v.C, sx(fn, argc...))
+				}
+			}
+			inv = e.typeInv(v, st)
+		} else {
+			v, inv = e.freshVal("ret."+shortName(key), rt.At(i).Type(), st)
+		}
 		e.assume(reach, inv)
 		res.C = append(res.C, v.C...)
 		if i < len(rs) {
@@ -751,7 +838,15 @@ func (f *Frame) applyGhost(g *Clause, env *Env, reach string, st *State) {
 		}
 		cond = c
 	}
-	sel, ok := g.LHS.(*ast.SelectorExpr)
+	var rangeLo ast.Expr
+	lhs := g.LHS
+	var rangeHi ast.Expr
+	if sl, ok := lhs.(*ast.SliceExpr); ok && sl.Low != nil {
+		// stream[lo:] := bytes / stream[lo:hi] := bytes -- the stream gets
+		// the (first hi-lo) bytes at lo, lo+1, ...
+		rangeLo, rangeHi, lhs = sl.Low, sl.High, sl.X
+	}
+	sel, ok := lhs.(*ast.SelectorExpr)
 	if !ok {
 		env.fail(g.LHS, "ghost target must be a ghost field")
 	}
@@ -775,6 +870,52 @@ func (f *Frame) applyGhost(g *Clause, env *Env, reach string, st *State) {
 		env.fail(g.LHS, "not a ghost field")
 	}
 	h := e.ghostHeap(sn, gf)
+	if g.Choose {
+		// Prophecy initialisation: the ghost field of an object allocated in
+		// this activation, which nothing has constrained yet, is chosen to
+		// satisfy the predicate.  Freshness is an obligation; satisfiability
+		// of the predicate is guarded by a reachability check.
+		top := f
+		for top.parent != nil {
+			top = top.parent
+		}
+		f.addObl("ghost.choose.fresh", "", and(reach, cond), sx("<=", top.entrySt.Alloc, base.C[0]), nil, nil, "")
+		cur := e.heapTerm(st, h)
+		nv := e.fresh("choose."+gf.Name, h.elem)
+		e.setHeap(st, h, sx("store", cur, base.C[0], ite(and(reach, cond), nv, sx("select", cur, base.C[0]))))
+		env.st = st
+		f.curSt = st
+		fm := env.evalBool(g.Expr)
+		f.assumeFm(and(reach, cond), fm)
+		ro := &Obligation{Name: f.oblName("reach:ghost.choose"), Func: f.prefix, Kind: "reach", Mode: e.mode, Reach: and(reach, cond), Goal: "false", prelude: e.pre, weakB2I: e.weakB2I}
+		ro.snap()
+		e.extraReach = append(e.extraReach, ro)
+		return
+	}
+	if rangeLo != nil {
+		if gf.Type != "stream" {
+			env.fail(g.LHS, "range assignment needs a stream ghost field")
+		}
+		lo := env.evalAs(rangeLo, types.Typ[types.Int]).C[0]
+		src := env.eval(g.Expr)
+		arrs, srcStart, n, _ := f.srcArrays(st, src)
+		if rangeHi != nil {
+			n = e.isub(env.evalAs(rangeHi, types.Typ[types.Int]).C[0], lo)
+		}
+		cur := e.heapTerm(st, h)
+		oldS := sx("select", cur, base.C[0])
+		nv := e.fresh("stream."+gf.Name, sx("Array", e.idxSort(), "(_ BitVec 8)"))
+		e.nf++
+		tok := fmt.Sprintf("?q%d", e.nf)
+		in := and(e.ile(lo, tok), e.ilt(tok, e.iadd(lo, n)))
+		body := ite(in,
+			eq(sx("select", nv, tok), sx("select", arrs[0], e.iadd(srcStart, e.isub(tok, lo)))),
+			eq(sx("select", nv, tok), sx("select", oldS, tok)))
+		e.alias(nv, base.C[0])
+		e.addQ(&QHyp{Var: tok, Sort: e.idxSort(), Guard: "true", Body: body, Offsets: []string{base.C[0] + "\x00" + e.idxLit(0)}, Reach: "true"})
+		e.setHeap(st, h, sx("store", cur, base.C[0], ite(and(reach, cond), nv, oldS)))
+		return
+	}
 	val := env.evalAs(g.Expr, e.ghostType(gf))
 	cur := e.heapTerm(st, h)
 	old := sx("select", cur, base.C[0])
@@ -919,6 +1060,16 @@ func (f *Frame) acquireIf(lock, cond string, st *State, point string) {
 					f.assumeFm(cond, env.evalBool(p.Body))
 				}()
 			}
+			for _, p := range ld.CSLocal {
+				env := f.env(st)
+				env.vars["owner"] = owner
+				for _, it := range f.evalModItems(env, []ast.Expr{ownerExpr(p)}) {
+					for _, hh := range it.heaps {
+						c0 := e.heapTerm(st, hh)
+						e.setHeap(st, hh, sx("store", c0, it.ref, ite(cond, e.zeroComp(hh.elem), sx("select", c0, it.ref))))
+					}
+				}
+			}
 		}
 	}
 	cur = e.heapTerm(st, h)
@@ -1000,8 +1151,13 @@ func (f *Frame) execBuiltin(name string, c *ssa.CallCommon, args []Val, reach st
 		return f.doCopy(args[0], args[1], reach, st)
 	case "delete":
 		m := args[0]
+		oldVer := e.fresh("mapver.old", "Int")
+		e.assume("true", eq(oldVer, f.mapVer(st, m.C[0])))
 		h := e.heap("G!mapver", "Int", false)
-		e.setHeap(st, h, sx("store", e.heapTerm(st, h), m.C[0], e.fresh("mapver", "Int")))
+		nv := e.fresh("mapver", "Int")
+		e.assume("true", not(eq(nv, oldVer)))
+		e.setHeap(st, h, sx("store", e.heapTerm(st, h), m.C[0], nv))
+		e.mapUpds = append(e.mapUpds, mapUpd{m: m.C[0], newVer: nv, prevVer: oldVer, key: args[1], deleted: true})
 		return Val{}
 	case "print", "println":
 		return Val{}
@@ -1088,6 +1244,8 @@ func (f *Frame) doAppend(s, t Val, reach string, st *State) Val {
 	ncap := e.fresh("cap", e.idxSort())
 	e.assume("true", and(e.ile(newLen, ncap), e.ile(ncap, e.idxLit(1<<57))))
 	dstReg := ite(fits, s.C[0], nreg)
+	e.alias(dstReg, s.C[0])
+	e.alias(dstReg, nreg)
 	if k, ok := litVal(n); ok && k == 0 {
 		// appending nothing never reallocates
 	}
@@ -1152,23 +1310,31 @@ func (f *Frame) dispatchIface(fc *FuncContract, key string, sig *types.Signature
 	var conds []string
 	for _, impl := range fc.Dispatch {
 		ifc := e.db.Funcs[impl]
-		if ifc == nil {
-			e.fail(f, fmt.Errorf("dispatch: no contract for %s", impl))
-			continue
-		}
 		w := &World{prog: e.prog, pkg: e.pkg, db: e.db}
 		fn := w.lookupFunc(impl)
 		if fn == nil {
 			e.fail(f, fmt.Errorf("dispatch: %s not found", impl))
 			continue
 		}
+		if (ifc == nil || ifc.Inline) && !f.depthOK(fn) {
+			continue // already being executed (wrapper of a wrapper): use the interface-level contract
+		}
 		rt := fn.Signature.Recv().Type()
 		cond := and(not(eq(id, "0")), eq(e.itype(id), fmt.Sprint(e.typeTag(rt))))
 		recv := e.ifacePayload(id, rt)
 		bst := st.clone()
 		bargs := append([]Val{recv}, args[1:]...)
-		r := f.applyContract(ifc, impl, fn, fn.Signature, false, bargs, and(reach, cond), bst, point)
-		brs = append(brs, branch{and(reach, cond), bst, r})
+		var r Val
+		breach := and(reach, cond)
+		if ifc != nil && !ifc.Inline {
+			r = f.applyContract(ifc, impl, fn, fn.Signature, false, bargs, breach, bst, point)
+		} else {
+			// no contract: the (usually synthetic, promoted) method body is executed
+			var r1 Val
+			r1, breach = f.inline(fn, ifc, bargs, nil, breach, bst)
+			r = Val{T: sig.Results(), C: r1.C}
+		}
+		brs = append(brs, branch{breach, bst, r})
 		conds = append(conds, cond)
 	}
 	other := and(reach, not(or(conds...)))
@@ -1203,4 +1369,57 @@ func (f *Frame) liveObl(reach string, st *State, reg, what string) {
 	h := e.heap("G!released", "Bool", false)
 	f.addObl("live", "C20.live", reach, or(eq(reg, "0"), not(sx("select", e.heapTerm(st, h), reg))), nil, nil, "")
 	_ = what
+}
+
+// dispatchDynamic: a call through a function value that is, on some paths, a
+// known function of this package (e.g. `checkOrigin := u.CheckOrigin; if nil
+// { checkOrigin = checkSameOrigin }`).  Case split on the value.
+func (f *Frame) dispatchDynamic(known []*ssa.Function, fc *FuncContract, key string, sig *types.Signature, fnv Val, args []Val, reach string, st *State, point string) (Val, string) {
+	e := f.e
+	type branch struct {
+		cond string
+		st   *State
+		res  Val
+	}
+	var brs []branch
+	var conds []string
+	for _, fn := range known {
+		cond := eq(fnv.C[0], e.funcID(fn))
+		bst := st.clone()
+		breach := and(reach, cond)
+		var r Val
+		if kfc := e.db.Funcs[fnKey(fn)]; kfc != nil && !kfc.Inline {
+			r = f.applyContract(kfc, fnKey(fn), fn, fn.Signature, false, args, breach, bst, point)
+		} else {
+			var r1 Val
+			r1, breach = f.inline(fn, kfc, args, nil, breach, bst)
+			r = Val{T: sig.Results(), C: r1.C}
+		}
+		brs = append(brs, branch{breach, bst, r})
+		conds = append(conds, cond)
+	}
+	other := and(reach, not(or(conds...)))
+	ost := st.clone()
+	var or_ Val
+	if fc != nil {
+		or_ = f.applyContract(fc, key, nil, sig, false, args, other, ost, point)
+	} else {
+		e.unmodelled[key] = true
+		f.havocAll(ost)
+		var inv string
+		or_, inv = e.freshVal("ret.dyn", sig.Results(), ost)
+		e.assume("true", inv)
+	}
+	brs = append(brs, branch{other, ost, or_})
+	var es []edge
+	var vals []Val
+	var rs []string
+	for _, b := range brs {
+		es = append(es, edge{nil, b.cond, b.st})
+		vals = append(vals, b.res)
+		rs = append(rs, b.cond)
+	}
+	m := f.mergeStates(es)
+	*st = *m
+	return f.mergeVals(sig.Results(), vals, es, "dyn"), or(rs...)
 }
